@@ -25,12 +25,13 @@ def r1_overrides(chk: Check) -> None:
         chk.violation("C14.R1", gsk, "overrides -> strategy kwargs", "--set-* overrides are no longer turned into explicit strategy arguments: fuzzing and examples phases ignore them", gsk.loc())
     else:
         lp = loops[0]
-        stores = [s for s in iter_stmts(lp.body) if isinstance(s, ast.Assign) and isinstance(s.targets[0], ast.Subscript) and dotted(s.targets[0].value) == "kwargs"]
+        rets = simple_return_expr(gsk)
+        kwv = {r.id for r in rets if isinstance(r, ast.Name)}
+        stores = [s for s in iter_stmts(lp.body) if isinstance(s, ast.Assign) and isinstance(s.targets[0], ast.Subscript) and dotted(s.targets[0].value) in kwv]
         tgt = lp.target
         ok = bool(stores) and isinstance(tgt, ast.Tuple) and len(tgt.elts) == 2 and unparse(stores[0].targets[0].slice) == unparse(tgt.elts[0]) and unparse(stores[0].value) == unparse(tgt.elts[1])
         chk.decide(True if ok else (False if not stores else None), "C14.R1", gsk, "overrides -> strategy kwargs", "override entries are not stored under their own location", gsk.loc(lp))
-        rets = simple_return_expr(gsk)
-        chk.decide(any(isinstance(r, ast.Name) and r.id == "kwargs" for r in rets), "C14.R1", gsk, "get_strategy_kwargs returns the collected kwargs", "collected overrides are not returned", gsk.loc())
+        chk.decide(bool(kwv) and bool(stores), "C14.R1", gsk, "get_strategy_kwargs returns the collected kwargs", "collected overrides are not returned", gsk.loc())
     hdr = [s for s in walk_body(gsk.node) if isinstance(s, ast.Assign) and isinstance(s.targets[0], ast.Subscript) and const_str(s.targets[0].slice) == "headers"]
     chk.decide(bool(hdr) and "network.headers" in unparse(hdr[0].value, 300), "C14.R1", gsk, "configured headers -> strategy kwargs['headers']", "user --header values are not passed to generation: a generated header of the same name is not replaced", gsk.loc())
     wt = P.func(f"{UNIT}:worker_task")
@@ -39,31 +40,36 @@ def r1_overrides(chk: Check) -> None:
     src_ok = isinstance(v, ast.Name) and any(isinstance(val, ast.Call) and last_attr(val) == "get_strategy_kwargs" for val in local_value(wt, v.id))
     chk.decide(src_ok, "C14.R1", wt, "HypothesisTestConfig(as_strategy_kwargs=get_strategy_kwargs(ctx, operation))", "tests are created without the override/header strategy kwargs", wt.loc())
     ct = P.func(f"{BUILDER}:create_test")
-    sk = [v for _, v in assignments_to(ct.node, "strategy_kwargs") if v is not None]
-    spread = bool(sk) and isinstance(sk[0], ast.Dict) and any(k is None and unparse(v) == "config.as_strategy_kwargs" for k, v in zip(sk[0].keys, sk[0].values))
-    chk.decide(spread, "C14.R1", ct, "strategy_kwargs includes **config.as_strategy_kwargs", "explicit overrides are not forwarded to operation.as_strategy", ct.loc())
+    skn = [name_of(b, "v") for n_, b in pfind("$v = $X", ct.node) if isinstance(b["X"], ast.Dict) and any(k is None and unparse(v) == "config.as_strategy_kwargs" for k, v in zip(b["X"].keys, b["X"].values))]
+    chk.decide(bool(skn), "C14.R1", ct, "strategy_kwargs includes **config.as_strategy_kwargs", "explicit overrides are not forwarded to operation.as_strategy", ct.loc())
     asg = [c for c in body_calls(ct, into_nested=True) if last_attr(c) == "as_strategy"]
-    chk.decide(bool(asg) and any(k.arg is None and unparse(k.value) == "strategy_kwargs" for k in asg[0].keywords), "C14.R1", ct, "operation.as_strategy(**strategy_kwargs)", "strategy is built without the explicit overrides", ct.loc())
+    chk.decide(bool(asg) and any(k.arg is None and (unparse(k.value) in skn or unparse(k.value) == "config.as_strategy_kwargs") for k in asg[0].keywords), "C14.R1", ct, "operation.as_strategy(**strategy_kwargs)", "strategy is built without the explicit overrides", ct.loc())
     ex = [c for c in body_calls(ct) if last_attr(c) == "add_examples"]
-    chk.decide(bool(ex) and any(k.arg is None and unparse(k.value) == "strategy_kwargs" for k in ex[0].keywords), "C14.R1", ct, "add_examples(**strategy_kwargs)", "examples are built without the explicit overrides", ct.loc())
+    chk.decide(bool(ex) and any(k.arg is None and (unparse(k.value) in skn or unparse(k.value) == "config.as_strategy_kwargs") for k in ex[0].keywords), "C14.R1", ct, "add_examples(**strategy_kwargs)", "examples are built without the explicit overrides", ct.loc())
     cov = [c for c in body_calls(ct) if last_attr(c) == "add_coverage"]
     chk.decide(bool(cov) and any(unparse(a) == "config.as_strategy_kwargs" for a in cov[0].args), "C14.R1", ct, "add_coverage(..., config.as_strategy_kwargs, ...)", "coverage cases are built without the explicit overrides", ct.loc())
     # coverage: merge after generation, user value wins
     ac = P.func(f"{BUILDER}:add_coverage")
     g = cfg_of(ac)
-    ov = [v for _, v in assignments_to(ac.node, "overrides") if v is not None]
-    chk.decide(bool(ov) and "as_strategy_kwargs" in unparse(ov[0], 400), "C14.R1", ac, "overrides taken from as_strategy_kwargs", "coverage phase ignores the configured overrides", ac.loc())
-    upd = [c for c in body_calls(ac) if last_attr(c) == "update" and isinstance(c.func, ast.Attribute) and dotted(c.func.value) == "container"]
+    # the mapping of overrides: built from the as_strategy_kwargs parameter; the loop over its items applies them
+    ovn = [name_of(b, "v") for n_, b in pfind("$v = $X", ac.node) if "as_strategy_kwargs" in names_in(b["X"])]
+    chk.decide(bool(ovn), "C14.R1", ac, "overrides taken from as_strategy_kwargs", "coverage phase ignores the configured overrides", ac.loc())
+    ov_loops = [n for n in walk_body(ac.node) if isinstance(n, ast.For) and (m_ := pmatch("$o.items()", n.iter)) is not None and name_of(m_, "o") in ovn and isinstance(n.target, ast.Tuple) and len(n.target.elts) == 2]
+    ov_val = ov_loops[0].target.elts[1].id if ov_loops and isinstance(ov_loops[0].target.elts[1], ast.Name) else None  # type: ignore[attr-defined]
+    got = {name_of(b, "v") for lp_ in ov_loops for n_, b in pfind("$v = getattr($c, $n)", lp_)}
+    upd = [c for c in body_calls(ac) if last_attr(c) == "update" and isinstance(c.func, ast.Attribute) and dotted(c.func.value) in got]
     sets = [c for c in body_calls(ac) if dotted(c.func) == "setattr" and len(c.args) == 3]
-    if not upd:
+    if not ov_loops:
+        chk.undecided("C14.R1", ac, "container.update(value)", "loop over the overrides not recognised", ac.loc())
+    elif not upd:
         chk.violation("C14.R1", ac, "container.update(value)", "a coverage case that already has the container keeps its generated value: the user's override loses", ac.loc())
     else:
-        chk.decide(unparse(upd[0].args[0]) == "value", "C14.R1", ac, "container.update(value)", f"container is updated with {unparse(upd[0].args[0])}", ac.loc(upd[0]))
+        chk.decide(is_var(upd[0].args[0], ov_val), "C14.R1", ac, "container.update(value)", f"container is updated with {unparse(upd[0].args[0])}", ac.loc(upd[0]))
     chk.decide(bool(sets), "C14.R1", ac, "setattr(case, container_name, value) when the container is missing", "a coverage case without the container never receives the override", ac.loc())
     ex_calls = [c for c in body_calls(ac) if unparse(c.func) == "hypothesis.example"]
     if ex_calls and (upd or sets):
         en = g.stmt_nodes_containing(ex_calls[0])
-        loops = [n.id for n in g.live() if n.kind == "for" and "overrides.items()" in unparse(n.ast.iter)]  # type: ignore[attr-defined]
+        loops = [n.id for n in g.live() if n.kind == "for" and any(n.ast is lp_ for lp_ in ov_loops)]
         heads = [n.id for n in g.live() if n.kind == "for" and "_iter_coverage_cases" in unparse(n.ast.iter, 200)]  # type: ignore[attr-defined]
         # from the loop head over cases, reaching hypothesis.example must pass the overrides loop
         starts = [m for h in heads for m, lbl in g.nodes[h].succ if lbl == "iter"]
@@ -77,10 +83,16 @@ def r1_overrides(chk: Check) -> None:
     else:
         guard = parent(bc.node)
         chk.decide(isinstance(guard, ast.If) and unparse(guard.test) == "config.override is not None", "C14.R1", bc, "before_call defined iff config.override is not None", f"guard is `{unparse(guard.test) if isinstance(guard, ast.If) else '?'}`", bc.loc())
-        upd = [c for c in body_calls(bc) if last_attr(c) == "update" and dotted(c.func.value) == "container"]  # type: ignore[union-attr]
-        chk.decide(bool(upd) and unparse(upd[0].args[0]) == "entry", "C14.R1", bc, "container.update(entry)", "generated/link values are not replaced by the configured override", bc.loc())
-        sa = [c for c in body_calls(bc) if dotted(c.func) == "setattr"]
-        chk.decide(bool(sa) and unparse(sa[0].args[2]) == "container", "C14.R1", bc, "setattr(case, location, container)", "the updated container is not written back to the case", bc.loc())
+        olp = next((n for n in walk_body(bc.node) if isinstance(n, ast.For) and "for_operation(" in unparse(n.iter, 300) and isinstance(n.target, ast.Tuple) and len(n.target.elts) == 2), None)
+        if olp is None:
+            chk.undecided("C14.R1", bc, "container.update(entry)", "loop over config.override.for_operation(...) not recognised", bc.loc())
+        else:
+            ent = olp.target.elts[1].id if isinstance(olp.target.elts[1], ast.Name) else None  # type: ignore[attr-defined]
+            cvars = {name_of(b, "v") for n_, b in pfind("$v = getattr($c, $l) or {}", olp)} | {name_of(b, "v") for n_, b in pfind("$v = getattr($c, $l)", olp)}
+            upd = [c for c in body_calls(bc) if last_attr(c) == "update" and isinstance(c.func, ast.Attribute) and dotted(c.func.value) in cvars]
+            chk.decide(bool(upd) and is_var(upd[0].args[0], ent), "C14.R1", bc, "container.update(entry)", "generated/link values are not replaced by the configured override", bc.loc())
+            sa = [c for c in body_calls(bc) if dotted(c.func) == "setattr"]
+            chk.decide(bool(sa) and isinstance(sa[0].args[2], ast.Name) and sa[0].args[2].id in cvars, "C14.R1", bc, "setattr(case, location, container)", "the updated container is not written back to the case", bc.loc())
         sup = [c for c in body_calls(bc) if unparse(c.func) == "super().before_call"]
         chk.decide(bool(sup), "C14.R1", bc, "super().before_call(case)", "user before_call hooks of the base class are skipped", bc.loc())
     # pytest: OverrideMark -> as_strategy_kwargs
@@ -120,7 +132,7 @@ def r2_network_config(chk: Check) -> None:
     rets = simple_return_expr(sess)
     chk.decide(any(isinstance(r, ast.Name) and r.id == sv for r in rets), "C14.R2", sess, "configured session returned", "a different session object is returned", sess.loc())
     tk = P.func("engine/context.py:EngineContext.transport_kwargs")
-    d = next((v for _, v in assignments_to(tk.node, "kwargs") if isinstance(v, ast.Dict)), None)
+    d = next((n for n in walk_body(tk.node) if isinstance(n, ast.Dict) and any(const_str(k) == "session" for k in n.keys if k is not None)), None)
     want = {"session": "self.session", "headers": "self.config.network.headers", "verify": "self.config.network.tls_verify", "cert": "self.config.network.cert", "timeout": "self.config.network.timeout"}
     if d is None:
         chk.undecided("C14.R2", tk, "transport_kwargs dict", "dict literal not found", tk.loc())
@@ -136,12 +148,13 @@ def r2_network_config(chk: Check) -> None:
     chk.decide(bool(calls_) and any(k.arg is None and unparse(k.value) == "ctx.transport_kwargs" for k in calls_[0].keywords), "C14.R2", tf, "case.call(**ctx.transport_kwargs)", "unit-phase requests are sent without the configured session/headers/credentials", tf.loc())
     loop = P.maybe_func(f"{ST_EX}:_execute_state_machine_loop") or P.func(f"{ST_EX}:execute_state_machine_loop")
     gck = loop.module.functions.get(loop.qualname.split(":", 1)[1] + "._InstrumentedStateMachine.get_call_kwargs")
-    tkv = [v for _, v in assignments_to(loop.node, "transport_kwargs") if v is not None]
+    tkv = [b["X"] for n_, b in pfind("$v = $X", loop.node) if unparse(b["X"]) == "engine.transport_kwargs"]
+    tkn = set(defined_by(loop, "$v = engine.transport_kwargs"))
     if gck is None:
         chk.violation("C14.R2", loop, "stateful get_call_kwargs -> engine transport kwargs", "stateful requests are sent with default call kwargs: configured credentials are missing", loop.loc())
     else:
         r = simple_return_expr(gck)
-        ok = bool(r) and ((unparse(r[0]) == "transport_kwargs" and bool(tkv) and unparse(tkv[0]) == "engine.transport_kwargs") or unparse(r[0]) == "engine.transport_kwargs")
+        ok = bool(r) and ((unparse(r[0]) in tkn and bool(tkv)) or unparse(r[0]) == "engine.transport_kwargs")
         chk.decide(ok, "C14.R2", gck, "stateful get_call_kwargs -> engine transport kwargs", f"returns {unparse(r[0]) if r else '?'}", gck.loc())
     shared.cli_plumbing(
         chk, "C14.R2b",
@@ -164,10 +177,14 @@ def r3_precedence(chk: Check) -> None:
     P = chk.project
     ph = P.func("transport/prepare.py:prepare_headers")
     g = cfg_of(ph)
-    copies = [s for s, v in assignments_to(ph.node, "final_headers") if v is not None and "case.headers" in unparse(v, 200)]
-    upds = [c for c in body_calls(ph) if dotted(c.func) == "final_headers.update"]
+    cps = [(n, b) for n, b in pfind("$v = $X", ph.node) if "case.headers" in unparse(b["X"], 200)]
+    if not cps:
+        raise Undecided("prepare_headers: mapping built from case.headers not found")
+    fh = name_of(cps[0][1], "v")
+    copies = [n for n, _b in cps]
+    upds = [c for c in body_calls(ph) if dotted(c.func) == f"{fh}.update"]
     if not upds:
-        sd = [c for c in body_calls(ph) if dotted(c.func) == "final_headers.setdefault" and c.args and not isinstance(c.args[0], ast.Constant) and "SCHEMATHESIS_TEST_CASE_HEADER" not in unparse(c.args[0])]
+        sd = [c for c in body_calls(ph) if dotted(c.func) == f"{fh}.setdefault" and c.args and not isinstance(c.args[0], ast.Constant) and "SCHEMATHESIS_TEST_CASE_HEADER" not in unparse(c.args[0])]
         chk.violation("C14.R3", ph, "final_headers.update(headers)", "user headers are applied with setdefault/not at all: a generated header of the same name wins over the configured one", ph.loc(sd[0]) if sd else ph.loc())
     else:
         u = upds[0]
@@ -181,10 +198,10 @@ def r3_precedence(chk: Check) -> None:
     if inv:
         chk.violation("C14.R3", ph, "case.headers never applied on top of user headers", "case headers are applied with update() over the user's headers", ph.loc(inv[0]))
     rets = simple_return_expr(ph)
-    chk.decide(any(isinstance(r, ast.Name) and r.id == "final_headers" for r in rets), "C14.R3", ph, "returns final_headers", "a different mapping is returned", ph.loc())
+    chk.decide(any(isinstance(r, ast.Name) and r.id == fh for r in rets), "C14.R3", ph, "returns final_headers", "a different mapping is returned", ph.loc())
     sc = P.func("transport/requests.py:RequestsTransport.serialize_case")
-    hv = [v for _, v in assignments_to(sc.node, "final_headers") if v is not None]
-    ok = bool(hv) and isinstance(hv[0], ast.Call) and last_attr(hv[0]) == "prepare_headers" and any(unparse(a) == "headers" for a in hv[0].args)
+    hv = [c for c in body_calls(sc) if last_attr(c) == "prepare_headers"]
+    ok = bool(hv) and len(hv[0].args) >= 2 and any("kwargs.get('headers')" in x for x in canon(sc, hv[0].args[1]))
     chk.decide(ok, "C14.R3", sc, "serialize_case: final_headers = prepare_headers(case, headers)", "the caller's headers are not merged into the request", sc.loc())
     gpv = P.func("specs/openapi/_hypothesis.py:get_parameters_value")
     ex = [c for c in body_calls(gpv) if last_attr(c) == "get_parameters_strategy" and kwarg(c, "exclude") is not None]
@@ -232,8 +249,9 @@ def r4_set_on_case(chk: Check) -> None:
     if loop is None:
         chk.undecided("C14.R4", st, "AuthStorage.set iterates providers", "loop not found", st.loc())
     else:
-        text = unparse(loop, 1000)
-        chk.expect("provider.get(case, context)" in text and "provider.set(case, data, context)" in text, "C14.R4", st, "provider.get then provider.set", "provider data is fetched but not set on the case", st.loc(loop))
+        pvn = loop.target.id if isinstance(loop.target, ast.Name) else "provider"
+        got_ = pfind(f"$d = {pvn}.get(case, context)", loop)
+        chk.expect(bool(got_) and phas(f"{pvn}.set(case, $d, context)", loop, env={"d": got_[0][1]["d"]}), "C14.R4", st, "provider.get then provider.set", "provider data is fetched but not set on the case", st.loc(loop))
 
 
 # --------------------------------------------------------------------------------------------- R5
@@ -297,8 +315,8 @@ def r5_lock(chk: Check) -> None:
                 chk.violation("C14.R5", f, f"writer of {tgt}", "the token cache is written outside _set_cache_entry (not under the refresh lock)", f.loc(n))
     # keyed provider uses the same key on both sides
     kg, ks = P.func("auths.py:KeyedCachingAuthProvider._get_cache_entry"), P.func("auths.py:KeyedCachingAuthProvider._set_cache_entry")
-    kgv = [unparse(v) for _, v in assignments_to(kg.node, "key") if v is not None]
-    ksv = [unparse(v) for _, v in assignments_to(ks.node, "key") if v is not None]
+    kgv = sorted(x for c in body_calls(kg) if last_attr(c) == "get" and c.args and "cache_entries" in unparse(c.func) for x in canon(kg, c.args[0]) if "(" in x)
+    ksv = sorted(x for n in walk_body(ks.node) if isinstance(n, ast.Subscript) and isinstance(n.ctx, ast.Store) and "cache_entries" in unparse(n.value) for x in canon(ks, n.slice) if "(" in x)
     chk.decide(bool(kgv) and kgv == ksv, "C14.R5", kg, "same cache key function for read and write", f"read key {kgv} vs write key {ksv}", kg.loc())
     exp = [n for n in walk_body(ks.node) if isinstance(n, ast.Call) and last_attr(n) == "CacheEntry"]
     chk.decide(bool(exp) and "self.timer() + self.refresh_interval" in unparse(exp[0], 200), "C14.R5", ks, "expires = now + refresh_interval", "expiry is not computed from the refresh interval", ks.loc())
@@ -318,8 +336,9 @@ def r6_strip_auth(chk: Check) -> None:
                 else:
                     chk.violation("C14.R6", fn, f"{la}(...)", "credentials are stripped outside the ignored_auth probe: regular requests can go out without the configured auth", fn.loc(c))
     ia = P.func("specs/openapi/checks.py:ignored_auth")
-    hdr = [v for _, v in assignments_to(ia.node, "headers") if v is not None]
-    chk.decide(bool(hdr) and unparse(hdr[0]).endswith(".copy()"), "C14.R6", ia, "explicit headers are copied before auth is removed", "the shared network-headers dict is mutated: every later request loses the credential header", ia.loc())
+    strip = [c for c in body_calls(ia) if last_attr(c) == "_remove_auth_from_explicit_headers" and c.args]
+    hdr = [v for c in strip if isinstance(c.args[0], ast.Name) for _, v in assignments_to(ia.node, c.args[0].id) if v is not None]
+    chk.decide(bool(hdr) and all(unparse(v).endswith(".copy()") or (isinstance(v, ast.Call) and last_attr(v) in ("dict", "deepclone", "deepcopy")) for v in hdr) if strip else None, "C14.R6", ia, "explicit headers are copied before auth is removed", "the shared network-headers dict is mutated: every later request loses the credential header", ia.loc())
     ra = P.func("specs/openapi/checks.py:remove_auth")
     rets = simple_return_expr(ra)
     fresh = any(isinstance(r, ast.Call) and ("Case" in unparse(r.func) or last_attr(r) in ("Case", "replace", "deepclone")) for r in rets) or any(isinstance(v, ast.Call) for r in rets if isinstance(r, ast.Name) for v in local_value(ra, r.id))
